@@ -8,7 +8,7 @@ import tables
 import vlib
 from props import c01
 
-FILES = ["Link/LinkDict.v", "Link/LinkDefs.v", "Props/C03.v"]
+FILES = ["Link/LinkDict.v", "Link/LinkDefs.v", "Link/LinkDecl.v", "Props/C03.v"]
 PRE = ("From DV Require Import Prelude.Base Model.Wire Model.Types Model.Obs Model.Defs Model.DefsObs "
        "Gen.GenDict Gen.GenConst Gen.GenDefs.\nFrom Coq Require Import String.\n"
        "Definition E : env := {| e_rows := dict_rows; e_time := time_k; e_classes := def_classes |}.\n")
@@ -294,6 +294,25 @@ def check(run):
     run.obligations(FILES)
     gen_cases, gen_meta = [], []
     asn_cases, asn_meta = [], []
+
+    # "each declared attribute denotes exactly one dictionary AVP": what a class declares to its users are its annotated
+    # attributes; each must have a definition under that very name (else setting it encodes nothing and a received AVP
+    # appears under another name), and every definition must be declared.  Exhaustive over every class.
+    for cls, _is_msg in tables.def_classes():
+        declared = tables.declared_attrs(cls)
+        defined = [d.attr_name for d in cls.avp_def]
+        run.count(1, [("declared", cls.__name__)])
+        for a in declared:
+            if a not in defined:
+                near = [x for x in defined if x not in declared]
+                run.violation("declared-attribute-defined", {"class": cls.__name__, "attribute": a, "history": "set the declared attribute, encode"},
+                              {"definitions_under_undeclared_names": near}, "a definition named like the declared attribute",
+                              what=f"{cls.__name__}.{a} is declared (annotated) but has no AVP definition: setting it encodes no AVP")
+        for a in defined:
+            if a not in declared:
+                run.violation("declared-attribute-defined", {"class": cls.__name__, "attribute": a, "history": "decode a message carrying the AVP"},
+                              "defined but not declared", "every definition is a declared attribute",
+                              what=f"{cls.__name__} defines an AVP under the undeclared attribute name {a!r}")
 
     # "each declared attribute denotes exactly one dictionary AVP (a grouped one whenever the attribute has a container
     # class)": the container class must be THAT AVP's container.  Independent knowledge used: the dictionary name of the
